@@ -5,7 +5,7 @@ from . import common, frag, errs
 
 LEVEL = "exploration"
 RULE = ("an accepted Frag program and its twin with exactly ONE injected definite error: Str - Int, Int + Str, Str * Str, a call of a "
-        "user function with one argument too many / a Str for an Int parameter, a never-defined name, an attribute or method that "
+        "user function or builtin method with one argument too many / too few, a Str for an Int, an Int for a Str, a Float literal for a Nat/Int parameter or index, a never-defined name, an attribute or method that "
         "Int/Str/List do not have; the erroneous expression is placed at a random line of a random block (top level, function body, "
         "procedure body, for!/if! bodies) and wrapped at random in a list element, an if arm, a lambda body, a call argument, a "
         "record field or a default argument. The twin must be rejected with >= 1 error (front end via `vh errors`), a sample is also "
@@ -26,6 +26,19 @@ ERRS = {
     "int-no-attr": "(1).no_such_attr_qx",
     "str-no-method": '"s".no_such_method_qx()',
     "list-no-attr": "[1].no_such_attr_qx",
+    "too-few-args-user": "errf2_(1)",
+    "too-few-args-method-join": '", ".join()',
+    "too-few-args-method-startswith": '"abc".startswith()',
+    "too-few-args-method-removeprefix": '"abc".removeprefix()',
+    "too-many-args-method": '"abc".upper(1)',
+    "int-for-str": "errs_(1)",
+    "float-for-nat-user": "errn_(2.0)",
+    "float-for-nat-method": '"abc".center(6.5)',
+    "float-for-nat-kwarg": '"a,b,c".split(",", maxsplit:=1.0)',
+    "str-times-float": '("-" * 3.0)',
+    "float-index": "[1, 2, 3][1.0]",
+    "float-for-int-user": "errf_(1.5)",
+    "negative-for-nat": "errn_(-1)",
 }
 WRAPS = {
     "bare": "{e}",
@@ -44,7 +57,7 @@ def inject(src, rng):
     # candidate insertion points: before any line that starts a statement (not a continuation of a def header)
     cands = []
     for i, l in enumerate(lines):
-        if not l.strip() or i < 3:
+        if not l.strip() or i < 6:
             continue
         stripped = l.lstrip(" ")
         if stripped.startswith(("do!:", "do:")):
@@ -79,7 +92,7 @@ def run(ctx, rep):
     for k in range(n):
         rng = random.Random(f"C05:{ctx.seed}:{k}")
         tree = frag.generate(rng, frag.Opts(exits=False))
-        base = "errf_(x: Int): Int = x\n" + frag.to_erg(tree, top=True) + "\n"
+        base = "errf_(x: Int): Int = x\nerrf2_(x: Int, y: Int): Int = x + y\nerrs_(x: Str): Str = x\nerrn_(n: Nat): Nat = n\n" + frag.to_erg(tree, top=True) + "\n"
         twin, ek, wk, block = inject(base, rng)
         bases.append(base)
         twins.append(twin)
